@@ -31,6 +31,7 @@ import json
 import os
 import random
 import re
+import signal
 import subprocess
 import sys
 import uuid
@@ -744,6 +745,11 @@ def _server():
         return None
 
 
+def isolation_mode():
+    return "helper process: pristine forked children per history (references / history)" if _server() is not None \
+        else "in-process (cold caches only)"
+
+
 def isolated_history(kindmode, seed, tokens):
     p = _server()
     if p is not None:
@@ -765,6 +771,7 @@ def _in_child(fn):
     if pid == 0:
         os.close(r)
         try:
+            signal.alarm(600)          # a history that hangs is reported, not waited for
             out = json.dumps({"ok": fn()})
         except BaseException as e:  # noqa
             out = json.dumps({"err": type(e).__name__ + ": " + str(e)[:200]})
